@@ -333,7 +333,7 @@ pub fn cleanup(rep: &mut Report, tier: Tier) {
         match guarded(|| p.remove_redundant_row_constraints()) {
             Ok(Ok(q)) => {
                 check(rep, "remove_redundant_row_constraints", &q, true);
-                if let Some(out) = poly_rows(&q) {
+                if let Some(out) = poly_rows(&q).filter(|_| q.mat.shape()[1] == d) {
                     if feasible(&out, d) {
                         for i in 0..out.len() {
                             let mut others: Vec<Row> = out.iter().enumerate().filter(|(j, _)| *j != i).map(|(_, r)| r.clone()).collect();
